@@ -176,11 +176,14 @@ Print Assumptions C02_call_import_norm.
    matches (`=5`); chains; sequences with their nil short-circuit; BLOCKS — the block's input in a
    fresh slot (Store/Load), any number of branches, each a condition sequence with or without a
    `=>` consequence sequence, fall-through to the next branch with the input re-loaded, Reset of
-   the slots a branch bound and of the block's own slot at the exit.
+   the slots a branch bound and of the block's own slot at the exit; NON-CAPTURING FUNCTIONS with a
+   non-nil parameter, bound by `f = #T { body }` (IFunction) and called `arg f` (ILoad; ICall: the
+   callee's frame, its own locals above the caller's, the frame pop), to any call depth.
    NOT in the fragment (the mirror answers None): a `=>` branch whose CONDITION binds (the
    compiler then emits an out-of-line failure handler), spreads, label access (`.x`: resolved
    through the static type), strings/binaries, tuple/partial/star/type/or/pin patterns, function
-   literals and calls (ICall/ITailCall, frames), builtins, imports, processes.  Not mirrored: after
+   values anywhere but as the value of a binding step (in tuples, as arguments, `&f`), capturing
+   or nilary functions, tail calls (ITailCall), builtins, imports, processes.  Not mirrored: after
    a step whose STATIC type is nil the real compiler drops the rest of the sequence (a non-final
    nil-literal step is refused; the generator produces no other statically-nil value).
 
@@ -189,7 +192,7 @@ Print Assumptions C02_call_import_norm.
    EVALUATOR's own structural equality (`lit_verdict z v`: v is the integer z); every other step
    uses no outside input.  (C13 proves that the real `values_equal` is that structural equality.)
 
-   SIM P fn C caps shapes base rest pers ev c sc sc' (LangCompileProofs.v) reads: whenever the
+   SIM P fn C caps shapes isfun fnum base rest pers ev c sc sc' (LangCompileProofs.v) reads: whenever the
    evaluator judgement `ev e v` yields (v', e'), the machine of function `fn`, whose code C holds
    `c` at pc, started with a value related to v on top of ANY stack and locals related to the scope
    sc/e above any `base` locals, runs to pc + |c| with a value related to v' on top of the same
@@ -201,55 +204,24 @@ Theorem C02_compile_simulates :
     (forall z k, const_index pool z = Some k -> nth_error (Quiver.vm.Bytecode.p_consts P) k = Some (Quiver.vm.Bytecode.CInt z)) ->
     (forall sh t, shape_index shapes sh = Some t -> nth_error (Quiver.vm.Bytecode.p_tuples P) t = Some (length (snd sh))) ->
     (exists r, shapes = nil_shape :: ok_shape :: r) ->
+    forall (isfun : atom -> bool) (fnum : expression -> option nat),
+    (forall body k, fnum body = Some k ->
+       exists code, function_code pool shapes isfun fnum body = Some code /\
+                    nth_error (Quiver.vm.Bytecode.p_funcs P) k = Some (Quiver.vm.Bytecode.Build_func code 0)) ->
     forall (base : nat) (rest : list Quiver.vm.Vm.frame) (pers : bool) tf cf imf,
-    (forall t ctx sc c sc', compile_term pool shapes sc t = Some (c, sc') ->
-                            SIM P fn C caps shapes base rest pers (eval_term tf cf imf ctx t) c sc sc') /\
-    (forall ch ctx sc c sc', compile_chain pool shapes sc ch = Some (c, sc') ->
-                             SIM P fn C caps shapes base rest pers (eval_chain tf cf imf ctx ch) c sc sc').
+    (* calls at the evaluator's current fuel are simulated (C02_call_simulates discharges this for
+       `call mods n`, every n) *)
+    (forall body cenv te k a acc r w ma pc stk locs,
+       fnum body = Some k -> cf (VClos false (Some body) cenv te) a acc = Ret r w -> vrel shapes a ma ->
+       nth_error C pc = Some Quiver.vm.Bytecode.ICall ->
+       exists mr, star P (st fn caps base rest pers pc (Quiver.vm.Bytecode.VFun k nil :: ma :: stk) locs)
+                         (st fn caps base rest pers (S pc) (mr :: stk) locs) /\ vrel shapes r mr) ->
+    (forall t ctx sc c sc', compile_term pool shapes isfun fnum sc t = Some (c, sc') ->
+                            SIM P fn C caps shapes isfun fnum base rest pers (eval_term tf cf imf ctx t) c sc sc') /\
+    (forall ch ctx sc c sc', compile_chain pool shapes isfun fnum sc ch = Some (c, sc') ->
+                             SIM P fn C caps shapes isfun fnum base rest pers (eval_chain tf cf imf ctx ch) c sc sc').
 Proof. exact compile_simulates. Qed.
 Print Assumptions C02_compile_simulates.
-
-(* whole programs: the VM started as spawn_process starts it reaches the end of the compiled
-   code with the evaluator's value on the stack, pops the frame and finishes with that value *)
-Theorem C02_compile_program_correct :
-  forall (P : Quiver.vm.Bytecode.program) (fn : nat) (pool : list Z) (shapes : list shape) (p : program)
-         (code : list Quiver.vm.Bytecode.instr) (pers : bool),
-    compile_program pool shapes p = Some code ->
-    nth_error (Quiver.vm.Bytecode.p_funcs P) fn = Some (Quiver.vm.Bytecode.Build_func code 0) ->
-    (forall z k, const_index pool z = Some k -> nth_error (Quiver.vm.Bytecode.p_consts P) k = Some (Quiver.vm.Bytecode.CInt z)) ->
-    (forall sh t, shape_index shapes sh = Some t -> nth_error (Quiver.vm.Bytecode.p_tuples P) t = Some (length (snd sh))) ->
-    (exists r, shapes = nil_shape :: ok_shape :: r) ->
-    forall mods n v w, eval_program mods n p = Ret v w ->
-    exists mv ls,
-      vrel shapes v mv /\
-      star P (Quiver.vm.Vm.init_state fn [] Quiver.vm.Bytecode.vnil pers) (st fn 0 0 [] pers (length code) [mv] ls) /\
-      (forall x, Quiver.vm.Vm.step P (st fn 0 0 [] pers (length code) [mv] ls) x =
-                 Quiver.vm.Vm.Next (Quiver.vm.Vm.Build_state [mv] (if pers then ls else []) [] pers)) /\
-      (forall x, Quiver.vm.Vm.step P (Quiver.vm.Vm.Build_state [mv] (if pers then ls else []) [] pers) x =
-                 Quiver.vm.Vm.Finished mv (Quiver.vm.Vm.Build_state [] (if pers then ls else []) [] pers)).
-Proof. exact compile_program_correct. Qed.
-Print Assumptions C02_compile_program_correct.
-
-(* what the compiler does — normalise the blocks, then generate code — computes the value the
-   reference evaluator assigns to the ORIGINAL program *)
-Theorem C02_normalize_then_compile_correct :
-  forall (P : Quiver.vm.Bytecode.program) (fn : nat) (pool : list Z) (shapes : list shape) (p : program)
-         (code : list Quiver.vm.Bytecode.instr) (pers : bool),
-    compile_program pool shapes (normalize p) = Some code ->
-    nth_error (Quiver.vm.Bytecode.p_funcs P) fn = Some (Quiver.vm.Bytecode.Build_func code 0) ->
-    (forall z k, const_index pool z = Some k -> nth_error (Quiver.vm.Bytecode.p_consts P) k = Some (Quiver.vm.Bytecode.CInt z)) ->
-    (forall sh t, shape_index shapes sh = Some t -> nth_error (Quiver.vm.Bytecode.p_tuples P) t = Some (length (snd sh))) ->
-    (exists r, shapes = nil_shape :: ok_shape :: r) ->
-    forall mods n v w, eval_program mods n p = Ret v w -> closure_free v ->
-    exists mv ls,
-      vrel shapes v mv /\
-      star P (Quiver.vm.Vm.init_state fn [] Quiver.vm.Bytecode.vnil pers) (st fn 0 0 [] pers (length code) [mv] ls) /\
-      (forall x, Quiver.vm.Vm.step P (st fn 0 0 [] pers (length code) [mv] ls) x =
-                 Quiver.vm.Vm.Next (Quiver.vm.Vm.Build_state [mv] (if pers then ls else []) [] pers)) /\
-      (forall x, Quiver.vm.Vm.step P (Quiver.vm.Vm.Build_state [mv] (if pers then ls else []) [] pers) x =
-                 Quiver.vm.Vm.Finished mv (Quiver.vm.Vm.Build_state [] (if pers then ls else []) [] pers)).
-Proof. exact normalize_then_compile_correct. Qed.
-Print Assumptions C02_normalize_then_compile_correct.
 
 (* blocks: the term `{ branches }` — Store/Load of the input, the branches with their fall-through
    and commit jumps, the Resets — leaves the scope and the locals as they were and the block's
@@ -261,8 +233,84 @@ Theorem C02_compile_block_simulates :
     (forall z k, const_index pool z = Some k -> nth_error (Quiver.vm.Bytecode.p_consts P) k = Some (Quiver.vm.Bytecode.CInt z)) ->
     (forall sh t, shape_index shapes sh = Some t -> nth_error (Quiver.vm.Bytecode.p_tuples P) t = Some (length (snd sh))) ->
     (exists r, shapes = nil_shape :: ok_shape :: r) ->
-    forall (base : nat) (rest : list Quiver.vm.Vm.frame) (pers : bool) tf cf imf bs ctx sc c sc',
-    compile_term pool shapes sc (Block (Expression bs)) = Some (c, sc') ->
-    SIM P fn C caps shapes base rest pers (eval_term tf cf imf ctx (Block (Expression bs))) c sc sc'.
+    forall (isfun : atom -> bool) (fnum : expression -> option nat),
+    (forall body k, fnum body = Some k ->
+       exists code, function_code pool shapes isfun fnum body = Some code /\
+                    nth_error (Quiver.vm.Bytecode.p_funcs P) k = Some (Quiver.vm.Bytecode.Build_func code 0)) ->
+    forall (base : nat) (rest : list Quiver.vm.Vm.frame) (pers : bool) tf cf imf,
+    (forall body cenv te k a acc r w ma pc stk locs,
+       fnum body = Some k -> cf (VClos false (Some body) cenv te) a acc = Ret r w -> vrel shapes a ma ->
+       nth_error C pc = Some Quiver.vm.Bytecode.ICall ->
+       exists mr, star P (st fn caps base rest pers pc (Quiver.vm.Bytecode.VFun k nil :: ma :: stk) locs)
+                         (st fn caps base rest pers (S pc) (mr :: stk) locs) /\ vrel shapes r mr) ->
+    forall bs ctx sc c sc',
+    compile_term pool shapes isfun fnum sc (Block (Expression bs)) = Some (c, sc') ->
+    SIM P fn C caps shapes isfun fnum base rest pers (eval_term tf cf imf ctx (Block (Expression bs))) c sc sc'.
 Proof. exact compile_block_simulates. Qed.
 Print Assumptions C02_compile_block_simulates.
+
+(* calls: for EVERY fuel n the evaluator's `call mods n` of a function value (non-capturing, with a
+   non-nil parameter) is simulated from every caller frame: Call pushes the callee's frame, the
+   callee's code (store; load 0; branches; reset 0) runs, the exhausted frame is popped, and the
+   caller continues after the Call with the related result.
+   call_simulated P shapes fnum mods n (LangCompileProofs.v) is exactly the premise about `cf` of
+   the two theorems above, with cf := call mods n, for all fn C caps base rest pers. *)
+Theorem C02_call_simulates :
+  forall (P : Quiver.vm.Bytecode.program) (pool : list Z) (shapes : list shape) (isfun : atom -> bool) (fnum : expression -> option nat),
+    (forall z k, const_index pool z = Some k -> nth_error (Quiver.vm.Bytecode.p_consts P) k = Some (Quiver.vm.Bytecode.CInt z)) ->
+    (forall sh t, shape_index shapes sh = Some t -> nth_error (Quiver.vm.Bytecode.p_tuples P) t = Some (length (snd sh))) ->
+    (exists r, shapes = nil_shape :: ok_shape :: r) ->
+    (forall body k, fnum body = Some k ->
+       exists code, function_code pool shapes isfun fnum body = Some code /\
+                    nth_error (Quiver.vm.Bytecode.p_funcs P) k = Some (Quiver.vm.Bytecode.Build_func code 0)) ->
+    forall mods n, call_simulated P shapes fnum mods n.
+Proof. exact call_simulates. Qed.
+Print Assumptions C02_call_simulates.
+
+(* whole programs: the VM started as spawn_process starts it reaches the end of the compiled
+   code with the evaluator's value on the stack, pops the frame and finishes with that value *)
+Theorem C02_compile_program_correct :
+  forall (P : Quiver.vm.Bytecode.program) (pool : list Z) (shapes : list shape) (isfun : atom -> bool) (fnum : expression -> option nat),
+    (forall z k, const_index pool z = Some k -> nth_error (Quiver.vm.Bytecode.p_consts P) k = Some (Quiver.vm.Bytecode.CInt z)) ->
+    (forall sh t, shape_index shapes sh = Some t -> nth_error (Quiver.vm.Bytecode.p_tuples P) t = Some (length (snd sh))) ->
+    (exists r, shapes = nil_shape :: ok_shape :: r) ->
+    (forall body k, fnum body = Some k ->
+       exists code, function_code pool shapes isfun fnum body = Some code /\
+                    nth_error (Quiver.vm.Bytecode.p_funcs P) k = Some (Quiver.vm.Bytecode.Build_func code 0)) ->
+    forall (mods : list (list atom * program)) (fn : nat) (p : program) (code : list Quiver.vm.Bytecode.instr) (pers : bool),
+    compile_program pool shapes isfun fnum p = Some code ->
+    nth_error (Quiver.vm.Bytecode.p_funcs P) fn = Some (Quiver.vm.Bytecode.Build_func code 0) ->
+    forall n v w, eval_program mods n p = Ret v w ->
+    exists mv ls,
+      vrel shapes v mv /\
+      star P (Quiver.vm.Vm.init_state fn nil Quiver.vm.Bytecode.vnil pers) (st fn 0 0 nil pers (length code) (mv :: nil) ls) /\
+      (forall x, Quiver.vm.Vm.step P (st fn 0 0 nil pers (length code) (mv :: nil) ls) x =
+                 Quiver.vm.Vm.Next (Quiver.vm.Vm.Build_state (mv :: nil) (if pers then ls else nil) nil pers)) /\
+      (forall x, Quiver.vm.Vm.step P (Quiver.vm.Vm.Build_state (mv :: nil) (if pers then ls else nil) nil pers) x =
+                 Quiver.vm.Vm.Finished mv (Quiver.vm.Vm.Build_state nil (if pers then ls else nil) nil pers)).
+Proof. exact compile_program_correct. Qed.
+Print Assumptions C02_compile_program_correct.
+
+(* what the compiler does — normalise the blocks, then generate code — computes the value the
+   reference evaluator assigns to the ORIGINAL program *)
+Theorem C02_normalize_then_compile_correct :
+  forall (P : Quiver.vm.Bytecode.program) (pool : list Z) (shapes : list shape) (isfun : atom -> bool) (fnum : expression -> option nat),
+    (forall z k, const_index pool z = Some k -> nth_error (Quiver.vm.Bytecode.p_consts P) k = Some (Quiver.vm.Bytecode.CInt z)) ->
+    (forall sh t, shape_index shapes sh = Some t -> nth_error (Quiver.vm.Bytecode.p_tuples P) t = Some (length (snd sh))) ->
+    (exists r, shapes = nil_shape :: ok_shape :: r) ->
+    (forall body k, fnum body = Some k ->
+       exists code, function_code pool shapes isfun fnum body = Some code /\
+                    nth_error (Quiver.vm.Bytecode.p_funcs P) k = Some (Quiver.vm.Bytecode.Build_func code 0)) ->
+    forall (fn : nat) (p : program) (code : list Quiver.vm.Bytecode.instr) (pers : bool),
+    compile_program pool shapes isfun fnum (normalize p) = Some code ->
+    nth_error (Quiver.vm.Bytecode.p_funcs P) fn = Some (Quiver.vm.Bytecode.Build_func code 0) ->
+    forall mods n v w, eval_program mods n p = Ret v w -> closure_free v ->
+    exists mv ls,
+      vrel shapes v mv /\
+      star P (Quiver.vm.Vm.init_state fn nil Quiver.vm.Bytecode.vnil pers) (st fn 0 0 nil pers (length code) (mv :: nil) ls) /\
+      (forall x, Quiver.vm.Vm.step P (st fn 0 0 nil pers (length code) (mv :: nil) ls) x =
+                 Quiver.vm.Vm.Next (Quiver.vm.Vm.Build_state (mv :: nil) (if pers then ls else nil) nil pers)) /\
+      (forall x, Quiver.vm.Vm.step P (Quiver.vm.Vm.Build_state (mv :: nil) (if pers then ls else nil) nil pers) x =
+                 Quiver.vm.Vm.Finished mv (Quiver.vm.Vm.Build_state nil (if pers then ls else nil) nil pers)).
+Proof. exact normalize_then_compile_correct. Qed.
+Print Assumptions C02_normalize_then_compile_correct.
